@@ -279,7 +279,12 @@ def main(prop, tier, replay, njobs):
     nviol, nknown = 0, 0
     known_hit = {}
     percls = {}
+    pats = spec.get("classes")
+    nother = 0
     for cls, desc, key, j in viols:
+        if pats and not any(fnmatch.fnmatchcase(cls, p) for p in pats):
+            nother += 1   # a class that belongs to another property's oracle on the same search
+            continue
         sig = (cls, key)
         if sig in seen:
             continue
@@ -317,6 +322,7 @@ def main(prop, tier, replay, njobs):
         "stats": stats,
         "per_job": perjob,
         "known_findings_seen": nknown,
+        "violations_of_other_oracles_ignored": nother,
         "build_s": round(tb, 2),
     }
     if level == "model_checking":
